@@ -345,9 +345,15 @@ def run_dimensions(ctx):
     control values of the power law the user supplied, by which route (spec/MC_PowerLaw.tla)"""
     from .. import fx_chemdims as fxd
     q = ctx.tier == 'quick'
-    for variant in (('casefold',) if q else ('casefold', 'anagram', 'nodigits', 'prefix2')):
-        ctx.expect_refuted('refute-memo-' + variant, 'MC_MolMass', 'RF_MolMass_%s.cfg' % variant, 'AnswerIsOfAskedFormula')
-    res = ctx.check_spec('export-names', 'MC_MolMass', 'EX_MolMass_%s.cfg' % ctx.tier, workers=1, need_actions=('Build',))
+    # expected counterexamples: quick -- TLC prints, in the export run, reachable processes in which a design keyed by each
+    # lossy key hands out another species' mass (WITNESS); thorough -- additionally one refutation run per wrong design
+    if not q:
+        for variant in ('casefold', 'anagram', 'nodigits', 'prefix2'):
+            ctx.expect_refuted('refute-memo-' + variant, 'MC_MolMass', 'RF_MolMass_%s.cfg' % variant, 'AnswerIsOfAskedFormula', workers=1)
+    res = ctx.check_spec('export-names', 'MC_MolMass', 'EX_MolMass_%s.cfg' % ctx.tier, workers=1)
+    wit = {w['variant'] for w in res.tagged('WITNESS')}
+    if wit != {'casefold', 'anagram', 'nodigits', 'prefix2'}:
+        raise Machinery('AnswerIsOfAskedFormula is vacuous: TLC found a refuting process only for the memo keys %r' % sorted(wit))
     mv = dedupe(res.tagged('MVEC'))
     if len(mv) < 50 or not any(len(v['objs']) > 1 and 'casefold' in v['keys'] for v in mv) or \
             not any(len(v['objs']) == 1 and len(v['objs'][0]['names']) == 2 for v in mv) or \
@@ -357,12 +363,14 @@ def run_dimensions(ctx):
     n = fxd.run_names_vectors(ctx, mv, [indep_mass('H2'), indep_mass('He')])
     ctx.traces += n
     ctx.note('processes of chemistry objects whose gas names coincide under a lossy key (case, anagram, counts, prefix) replayed: %d' % n)
-    refute = [('all_or_nothing', 'AtMostDeepValue')]
     if not q:
-        refute += [('table_wins', 'ControlValuesInForce'), ('ctor_only', 'ControlValuesInForce')]
-    for variant, inv in refute:
-        ctx.expect_refuted('refute-powerlaw-' + variant, 'MC_PowerLaw', 'RF_PowerLaw_%s.cfg' % variant, inv)
-    res = ctx.check_spec('export-powerlaw', 'MC_PowerLaw', 'EX_PowerLaw_%s.cfg' % ctx.tier, workers=1, need_actions=('Write', 'Eval'))
+        for variant, inv in (('all_or_nothing', 'AtMostDeepValue'), ('table_wins', 'ControlValuesInForce'), ('ctor_only', 'ControlValuesInForce')):
+            ctx.expect_refuted('refute-powerlaw-' + variant, 'MC_PowerLaw', 'RF_PowerLaw_%s.cfg' % variant, inv, workers=1)
+    res = ctx.check_spec('export-powerlaw', 'MC_PowerLaw', 'EX_PowerLaw_%s.cfg' % ctx.tier, workers=1)
+    wit = {(w['variant'], w['inv']) for w in res.tagged('WITNESS')}
+    need = {(d, i) for d in ('all_or_nothing', 'table_wins', 'ctor_only') for i in ('AtMostDeepValue', 'ControlValuesInForce')}
+    if not need <= wit:
+        raise Machinery('power-law invariants are vacuous: no refuting evaluation for %r' % sorted(need - wit))
     pv = dedupe(res.tagged('PVEC'))
     partial_s = lambda e: e['op'] == 'eval' and e['st'] == 'ok' and e['eff']['s']['src'] == 'user' and \
         all(e['eff'][c]['src'] == 'table' for c in 'abg')
